@@ -310,12 +310,18 @@ func readMergedReports(ctx context.Context, fileName string, s *storage.API) ([]
 
 	var reports []telemetry.Report
 	scanner := bufio.NewScanner(in)
+	// A merged report is one line of JSON and can be far longer than the
+	// scanner's default 64 KiB token limit.
+	scanner.Buffer(make([]byte, 0, 64*1024), 64*1024*1024)
 	for scanner.Scan() {
 		var report telemetry.Report
 		if err := json.Unmarshal(scanner.Bytes(), &report); err != nil {
 			return nil, err
 		}
 		reports = append(reports, report)
+	}
+	if err := scanner.Err(); err != nil {
+		return nil, fmt.Errorf("reading merge file %s: %v", fileName, err)
 	}
 
 	return reports, nil
